@@ -5,7 +5,6 @@ import (
 	"fmt"
 	"net/url"
 	"sort"
-	"strings"
 
 	"github.com/buzzfeed/sso/internal/pkg/sessions"
 	"github.com/buzzfeed/sso/internal/pkg/singleflight"
@@ -79,7 +78,7 @@ func (p *SingleFlightProvider) ValidateGroup(email string, allowedGroups []strin
 func (p *SingleFlightProvider) UserGroups(email string, groups []string, accessToken string) ([]string, error) {
 	// sort the groups so that other requests may be able to use the cached request
 	sort.Strings(groups)
-	response, err := p.do("UserGroups", fmt.Sprintf("%s:%s", email, strings.Join(groups, ",")), func() (interface{}, error) {
+	response, err := p.do("UserGroups", fmt.Sprintf("%q:%q", email, groups), func() (interface{}, error) {
 		return p.provider.UserGroups(email, groups, accessToken)
 	})
 	if err != nil {
